@@ -20,6 +20,7 @@ import copy
 import datetime as dt
 import hashlib
 import json
+import os
 import sys
 
 import stix2
@@ -193,6 +194,23 @@ def call(obj, op, version):
             return getattr(obj, fname)(*args, **kw)
         return getattr(M, fname)(obj, *args, **kw)
 
+    if op.get("kw"):
+        # the same calls with every argument after the first given by keyword
+        if name == "add":
+            return f("add_markings", marking=marking_arg(op, version), selectors=sel)
+        if name == "remove":
+            return f("remove_markings", marking=marking_arg(op, version), selectors=sel)
+        if name == "clear":
+            return f("clear_markings", selectors=sel, marking_ref=op.get("marking_ref", True), lang=op.get("lang", True))
+        if name == "set":
+            return f("set_markings", marking=marking_arg(op, version), selectors=sel,
+                     marking_ref=op.get("marking_ref", True), lang=op.get("lang", True))
+        if name == "get":
+            return f("get_markings", selectors=sel, inherited=op.get("inherited", False),
+                     descendants=op.get("descendants", False), marking_ref=op.get("marking_ref", True), lang=op.get("lang", True))
+        if name == "is_marked":
+            return f("is_marked", marking=marking_arg(op, version), selectors=sel, inherited=op.get("inherited", False),
+                     descendants=op.get("descendants", False))
     if name == "add":
         return f("add_markings", marking_arg(op, version), sel)
     if name == "remove":
@@ -300,6 +318,14 @@ def run_c08(obj, case):
 
 
 def main():
+    if "--alt-env" in sys.argv and not os.environ.get("C07_ALT_ENV"):
+        # the same cases in another process environment: non-UTC POSIX zone, another hash seed
+        os.environ.update({"C07_ALT_ENV": "1", "TZ": "JST-9", "PYTHONHASHSEED": "7"})
+        os.execv(sys.executable, [sys.executable] + sys.argv)
+    if os.environ.get("C07_ALT_ENV"):
+        import time
+        time.tzset()
+        sys.setrecursionlimit(700)
     for line in sys.stdin:
         line = line.strip()
         if not line:
